@@ -21,11 +21,18 @@ def budget():
     """the action budget of one MatchTraverser.__next__ call: the only large integer constant the
     method uses, written inline or through a module-level name it refers to"""
     tree = ast.parse(open(os.path.join(SRC, "path/traverser/match_traverser.py")).read())
-    module_consts = {}
-    for node in tree.body:
-        if isinstance(node, ast.Assign) and len(node.targets) == 1 and isinstance(node.targets[0], ast.Name) \
-                and isinstance(node.value, ast.Constant) and isinstance(node.value.value, int):
-            module_consts[node.targets[0].id] = int(node.value.value)
+    consts = {}
+    # integer constants bound to a name at module level or in a class body (self.NAME / cls.NAME / Class.NAME)
+    for node in ast.walk(tree):
+        if isinstance(node, (ast.Module, ast.ClassDef)):
+            for st in node.body:
+                if isinstance(st, ast.Assign) and len(st.targets) == 1 and isinstance(st.targets[0], ast.Name) \
+                        and isinstance(st.value, ast.Constant) and isinstance(st.value.value, int) \
+                        and not isinstance(st.value.value, bool):
+                    consts[st.targets[0].id] = int(st.value.value)
+                if isinstance(st, ast.AnnAssign) and isinstance(st.target, ast.Name) and isinstance(st.value, ast.Constant) \
+                        and isinstance(st.value.value, int) and not isinstance(st.value.value, bool):
+                    consts[st.target.id] = int(st.value.value)
     cands = set()
     for node in ast.walk(tree):
         if isinstance(node, ast.FunctionDef) and node.name == "__next__":
@@ -33,8 +40,10 @@ def budget():
                 if isinstance(st, ast.Constant) and isinstance(st.value, int) and not isinstance(st.value, bool) \
                         and st.value >= 1000:
                     cands.add(int(st.value))
-                if isinstance(st, ast.Name) and st.id in module_consts and module_consts[st.id] >= 1000:
-                    cands.add(module_consts[st.id])
+                if isinstance(st, ast.Name) and consts.get(st.id, 0) >= 1000:
+                    cands.add(consts[st.id])
+                if isinstance(st, ast.Attribute) and consts.get(st.attr, 0) >= 1000:
+                    cands.add(consts[st.attr])
     if len(cands) != 1:
         raise RuntimeError(f"loop budget of MatchTraverser.__next__ not identified (candidates: {sorted(cands)})")
     return cands.pop()
